@@ -83,6 +83,15 @@ def cmd_setup():
     from kit import oracle
     n = oracle.oracle_selftest()
     print(f"oracle selftest: {n} cases agree with CPython sequences")
+    # symbolic branch of the model vs its concrete branch (harness/m00.py), solver-enumerated small scope
+    rc = subprocess.call([VPY, os.path.abspath(__file__), 'M00', '--tier', 'quick'], cwd=VERIF)
+    if rc != 0:
+        print("HARNESS-ERROR: symbolic branch of the sbx model disagrees with its concrete branch")
+        return 3
+    ev = json.load(open(os.path.join(VERIF, 'evidence', 'M00.json')))
+    if ev['coverage']['discharged'] != ev['coverage']['obligations']:
+        print("HARNESS-ERROR: model self-test M00 inconclusive")
+        return 3
     return 0
 
 
